@@ -240,6 +240,9 @@ class HistoryCorr(Corr):
             if oid is not None:
                 per_label = [a + b for a, b in zip(per_label, cnt[1])]
                 continue
+            if cnt[0] != sum(per_label):
+                return (f"call {k} (get_scene_result): MetricsScore.num_ground_truth = {cnt[0]} but the frame results added so far hold "
+                        f"{sum(per_label)} ground truths of the target labels")
             for what, got in (("detection", cnt[1]), ("tracking", cnt[2])):
                 if got is not None and list(got) != per_label:
                     return (f"call {k} (get_scene_result): per-label {what} ground-truth counts {list(got)} are not the sums {per_label} over the "
